@@ -49,6 +49,34 @@ def replay_setters(prop):
         return RP.write_and_run(prop, job.name + "." + ob["name"], hdr, ['"TasmanianOptimization.hpp"'], REPLAY_F20B.replace("@WHICH@", str(wi)), "  main_replay();", lib="dream")
     return rp
 
+REPLAY_SPLIT = r'''
+/* On the real optimizer: n then m iterations on the same state, with the same random stream, equal n+m iterations; the domain excludes the whole initial swarm
+ * so that the first swarm best appears in the middle of a call. */
+int main_replay(){
+  int bad = 0;
+  auto f = [](const std::vector<double> &x, std::vector<double> &fv)->void{ for (size_t i = 0; i < fv.size(); i++) fv[i] = (x[i] - 25.0) * (x[i] - 25.0); };
+  auto inside = [](const std::vector<double> &x)->bool{ return x[0] > 20.0; };
+  for (int n = 0; n <= 6; n++) for (int m = 0; m <= 6; m++) {
+    auto mk = []()->TasOptimization::ParticleSwarmState{ TasOptimization::ParticleSwarmState s(1, 4); s.setParticlePositions(std::vector<double>{10.0, 4.0, 1.0, 12.0}); s.setParticleVelocities(std::vector<double>{3.0, 5.0, 7.0, 2.5}); return s; };
+    TasOptimization::ParticleSwarmState a = mk(), b = mk();
+    unsigned ca = 0, cb = 0;
+    auto rng = [](unsigned &c)->double{ c = c * 1664525u + 1013904223u; return (double)(c >> 8) / 16777216.0; };
+    TasOptimization::ParticleSwarm(f, inside, 0.7, 1.1, 1.3, n + m, a, [&]()->double{ return rng(ca); });
+    TasOptimization::ParticleSwarm(f, inside, 0.7, 1.1, 1.3, n, b, [&]()->double{ return rng(cb); });
+    TasOptimization::ParticleSwarm(f, inside, 0.7, 1.1, 1.3, m, b, [&]()->double{ return rng(cb); });
+    if (a.getParticlePositions() != b.getParticlePositions() || a.getParticleVelocities() != b.getParticleVelocities() || a.getBestParticlePositions() != b.getBestParticlePositions()) {
+      if (bad < 5) std::printf("split mismatch: %d + %d iterations differ from %d then %d\n", n, m, n, m); bad++; }
+  }
+  __CPROVER_assert(bad == 0, "C20 running n then m iterations on the same state equals running n+m");
+  return 0;
+}
+'''
+def replay_split(prop):
+    def rp(job, ob, vals, wd):
+        hdr = "Replay against the real optimizer.\nproperty %s job %s\nobligation %s: %s\nat %s" % (prop, job.name, ob["name"], ob["description"], ob["location"])
+        return RP.write_and_run(prop, job.name + "." + ob["name"], hdr, ['"TasmanianOptimization.hpp"'], REPLAY_SPLIT, "  main_replay();", lib="dream", timeout=60)
+    return rp
+
 def jobs(tier, seed, prop):
     np_, nd = (3, 1) if tier == "quick" else (3, 2)
     cf = ContractFile("contracts/pswarm.c")
@@ -65,4 +93,15 @@ def jobs(tier, seed, prop):
                        assumed=["objective and domain test are arbitrary callbacks (any doubles / any bool)", "objective values are not NaN (hypothesis of F20)"],
                        label={"f_constrained": "lambda f_constrained of ParticleSwarm against F19", "update": "lambda update of ParticleSwarm: best-known invariant is inductive (F20)",
                               "setters": "ParticleSwarmState setters/clearers keep cache and positions coherent (F20b)"}[nm]))
+    Rm = X.Rules()
+    mt, minfo = pswarm.emit_main(Rm)
+    t2 = [t_ for k, a, t_ in cf.sections if k == "text2"][0]
+    nit = 3
+    pre_m = '#include "tsg_shim.h"\nint tsg_exc;\n#define TSG_NP 2\n#define TSG_NDIM 1\n#define TSG_NIT %d\n#line 1 "/verif/contracts/pswarm.c"\n' % nit + cf.text(("text",))
+    out.append(Job("pswarm.main", pre_m + t2 + mt + cf.text(("harness",), ["h_main"]), "h_main", unwind=6, timeout=600, backends=[["--refine-arithmetic"], ["--sat-solver", "cadical"]],
+                   functions=["%s:%d %s" % (f["file"], f["line"], f["name"]) for f in minfo["functions"]], info=minfo, replay=replay_split(prop),
+                   bounded="particles <= 2, dimensions == 1, iterations <= %d (full unwinding with unwinding assertions)" % nit,
+                   assumed=["the lambdas f_constrained and update are stubs here (F19 / F20 are their own jobs): update may turn best-known flags on, never off",
+                            "the values of the velocity update are not decided (floating point); the obligations are about which branch runs and how many draws it consumes"],
+                   label="ParticleSwarm iteration loop: the mode of every iteration follows the current swarm-best flag; draws per iteration; iteration count"))
     return out
